@@ -496,11 +496,13 @@ func (self Node) Field(id thrift.FieldID) (v Node) {
 	}
 	for it.HasNext() {
 		i, t, s, e := it.Next(UseNativeSkipForGet)
+		if it.Err != nil {
+			// the span of a field that failed to read is not valid, even if its id matches
+			v = errNode(meta.ErrRead, "", it.Err)
+			goto ret
+		}
 		if i == id {
 			v = self.slice(s, e, t)
-			goto ret
-		} else if it.Err != nil {
-			v = errNode(meta.ErrRead, "", it.Err)
 			goto ret
 		}
 	}
